@@ -772,8 +772,8 @@ Example c15_nonvacuous_vcf_lazy :
   fst (fst (fst (NV.Io.TabRead.wx_vcf_read_record [99;9;49;9;46;10]))) = NV.Text.TextBase.Err NV.Text.TextBase.InvalidData.
 Proof. split; vm_compute; reflexivity. Qed.
 Example c15_nonvacuous_cram_container : forall crc,
-  (* a container header that declares 2^31 - 1 landmarks in a 20-byte input is UnexpectedEof *)
-  NV.Trunc.Cram.dc_fields [1;0;0;0; 0; 1; 1; 0; 0; 0; 1; 247;255;255;255;15; 0;0;0;0]
+  (* a container header that declares 1000 landmarks in a 17-byte input is UnexpectedEof *)
+  NV.Trunc.Cram.dc_fields [1;0;0;0; 0; 1; 1; 0; 0; 0; 1; 131;232; 0;0;0;0]
     = NV.Trunc.Cram.PErr NV.Trunc.Stream.UnexpectedEof
   /\ fst (NV.Trunc.Cram.cram_read crc (fun _ => None) [67;82;65;77]) = false.
 Proof. intro crc. split; vm_compute; reflexivity. Qed.
